@@ -181,6 +181,8 @@ def r4_factor_kind(facts, rep):
 
 
 def run(fx, rep, tier):
+    from . import foundation as _fnd
+    _fnd.units(fx["dev"], rep, "C03-F", fx, tier)
     rep.assume("the algebraic laws (round trip, composition, homogeneity, power/product) follow from these facts for factor "
                "units by commutative-group algebra in Q+ (argued in DESIGN.md, not machine-checked)")
     facts = fx["dev"]
@@ -227,6 +229,20 @@ def run(fx, rep, tier):
     c02.r6_factor(facts, sub)
     for o in sub.obls:
         o["rule"] = "C03-R9"
+        rep.obls.append(o)
+    rep.rule("C03-R10", "a power of a unit converts by the same power of its factor: `^` multiplies every stored power by n, keeps "
+                        "the prefix (it is applied per power when converting) and drops what becomes zero (shared with C04-R1)")
+    sub = type(rep)(rep.prop, rep.tier)
+    c04.r1_pow_unit(facts, sub)
+    for o in sub.obls:
+        o["rule"] = "C03-R10"
+        rep.obls.append(o)
+    rep.rule("C03-R11", "scaling the input scales the output: a zero-point offset (°C, °F) is applied only to a sole scale of power "
+                        "one and refused inside products, quotients and powers (shared with C09-R2)")
+    sub = type(rep)(rep.prop, rep.tier)
+    c09.r2_apply(facts, sub)
+    for o in sub.obls:
+        o["rule"] = "C03-R11"
         rep.obls.append(o)
     if "rel" in fx:
         sub = type(rep)(rep.prop, rep.tier)
